@@ -7,7 +7,8 @@ from check import standard_run, generic_replay
 
 MODULE = "TraceRegex"
 CHARSETS = [["a", "b", " "], ["a", "é", " "], ["x", "ü", "€"], ["a", "b", "ñ"], ["é", "ü", "ö"], ["a", "A", "ß"],
-            ["—", "、", "a"], ["€", "、", "—"], ["ß", "S", "s"], ["a", "ß", "S"], ["€", "ア", "a"]]          # 3-byte characters with different lead and equal continuation bytes
+            ["—", "、", "a"], ["€", "、", "—"], ["ß", "S", "s"], ["a", "ß", "S"], ["€", "ア", "a"],
+            ["\x00", "\x01", "a"]]     # U+0000: the byte 0 is a falsy label          # 3-byte characters with different lead and equal continuation bytes
 
 
 def feat(LG):
